@@ -783,7 +783,8 @@ where
                 recalc_max_buffer_time_us = true;
             }
             if recalc_max_buffer_time_us {
-                let new_max_buffer_time_us = min_buffer_delay_us + {
+                // saturating as the min_buffer_delay_us can be any u64
+                let new_max_buffer_time_us = min_buffer_delay_us.saturating_add({
                     let x = max_buffering_delays
                         .iter()
                         .max_by_key(|x| {
@@ -805,7 +806,7 @@ where
                     } else {
                         x.1 .2
                     }
-                };
+                });
                 /* if new_max_buffer_time_us != max_buffer_time_us
                     && new_max_buffer_time_us > min_buffer_delay_us * 2
                 {
@@ -853,7 +854,7 @@ where
         // remove all messages from buffer that have a time more than max_buffer_time_us earlier
 
         while let Some(sm) = buffer.peek() {
-            if sm.0.calculated_time_us + max_buffer_time_us < msg_reception_time_us {
+            if sm.0.calculated_time_us.saturating_add(max_buffer_time_us) < msg_reception_time_us {
                 let sm2 = buffer.pop().unwrap();
                 outflow(sm2.0.m)?;
             } else {
